@@ -30,7 +30,10 @@ func parseStructFields(structType reflect.Type) ([]structField, error) {
 
 		isUnexported := field.PkgPath != ""
 		isEmbedded := field.Anonymous
-		isStruct := isUnderlyingStruct(field.Type)
+		// (time.Time and *big.Int are structs for Go but single values for serix: embedding one of them embeds a value,
+		// not a list of fields - treated as a list of fields the value would silently be left out)
+		isStruct := isUnderlyingStruct(field.Type) && field.Type != timeType && field.Type != reflect.PointerTo(timeType) &&
+			field.Type != bigIntPtrType && field.Type != bigIntPtrType.Elem()
 		isInterface := isUnderlyingInterface(field.Type)
 		isEmbeddedStruct := isEmbedded && isStruct
 		isEmbeddedInterface := isEmbedded && isInterface
